@@ -1019,8 +1019,9 @@ impl<T: Transport, Env: UtpEnvironment> VirtualSocket<T, Env> {
             // An acknowledged sequence number was sent: an RTO may have rewound
             // last_sent_seq_nr below segments that the peer had received all along, and
             // the FIN is sent only right after last_sent_seq_nr.
+            // (Only numbers we did use: an ACK may cover segments that were never sent.)
             let acked_up_to = self.user_tx_segments.snd_una() - 1;
-            if acked_up_to > self.last_sent_seq_nr {
+            if acked_up_to > self.last_sent_seq_nr && acked_up_to < self.seq_nr {
                 self.last_sent_seq_nr = acked_up_to;
             }
 
